@@ -208,6 +208,9 @@ def _abs(ctx, a):
     neg = ex.binop('Lt', a, CI(0, w), t)
     if ctx.callee.endswith('::abs'):
         ctx.panic_if(ex.binop('Eq', a, CI(1 << (w - 1), w), t), 'attempt to negate with overflow (abs of MIN)')
+    elif z3.is_expr(a) and z3.is_int(a):
+        # exact integer mode: the result is of the unsigned type, |MIN| does not wrap
+        return z3.If(a < 0, -a, a)
     return ite(neg, ex.binop('Sub', CI(0, w), a, t), a)
 
 
@@ -480,6 +483,12 @@ def _iter_fold(ctx, it, init, clos):
     acc = init
     for g, v in _ents(ctx, it):
         r = call_under(ctx, g, clos, [acc, v])
+        if r is None:
+            # the closure diverges (panics) whenever it is called here: unconditionally => the fold diverges; under a guard =>
+            # those paths are gone (call_under has removed them from the state) and the accumulator is unchanged on the rest
+            if g is True:
+                return X.DIVERGE
+            continue
         acc = r if g is True else ite(g, r, acc)
     return acc
 
@@ -603,6 +612,17 @@ def _split_at(ctx, p, mid):
 
 @model(r'^core::slice::<impl \[.*\]>::split_(first|last)$')
 def _split_first(ctx, p):
+    if isinstance(p, Ptr) and p.rng is not None and not (isinstance(p.rng[0], CI) and isinstance(p.rng[1], CI)):
+        # window with symbolic bounds: the element at the (symbolic) edge and the window shrunk by one
+        ex = ctx.ex
+        a, b = p.rng
+        nonempty = ex.binop('Lt', a, b, 'usize')
+        if ctx.callee.endswith('first'):
+            val = (Ptr(p.root, p.path + (('i', a),)), Ptr(p.root, p.path, (ex.binop('Add', a, CI(1, 64), 'usize'), b)))
+        else:
+            b1 = ex.binop('Sub', b, CI(1, 64), 'usize') if nonempty is not False else b
+            val = (Ptr(p.root, p.path + (('i', b1),)), Ptr(p.root, p.path, (a, b1)))
+        return mk_option(nonempty, val)
     s, a, b = slice_window(ctx, p)
     if not s.dense():
         raise Unsupported('split_first on a sparse sequence')
@@ -1640,3 +1660,93 @@ def _str_is_empty_generic(ctx, s):
         return X.NOT_HANDLED
     n = _str_len(ctx, s)
     return ctx.ex.binop('Eq', n, CI(0, 64), 'usize')
+
+
+@model(r'^core::str::<impl str>::is_ascii$')
+def _str_is_ascii(ctx, s):
+    v = as_str(ctx, s)
+    if isinstance(v, StrV):
+        return all(ord(c) < 128 for c in v.s)
+    if hasattr(v, 'ents'):       # byte string with guarded entries
+        return b_and(*[b_or(b_not(g), ctx.ex.binop('Lt', b, CI(128, 8), 'u8')) for g, b in v.ents])
+    return X.NOT_HANDLED
+
+
+@model(r'^core::num::<impl u8>::(to_ascii_lowercase|to_ascii_uppercase)$')
+def _u8_ascii_case(ctx, p):
+    c = ctx.deref(p) if isinstance(p, (Ptr, PtrIte)) else p
+    lower = ctx.callee.endswith('lowercase')
+    if isinstance(c, CI):
+        ch = c.v
+        if lower and 65 <= ch <= 90:
+            ch += 32
+        if not lower and 97 <= ch <= 122:
+            ch -= 32
+        return CI(ch, 8)
+    x = bv(c)
+    if lower:
+        return z3.If(z3.And(z3.UGE(x, 65), z3.ULE(x, 90)), x + 32, x)
+    return z3.If(z3.And(z3.UGE(x, 97), z3.ULE(x, 122)), x - 32, x)
+
+
+@model(r'^<std::string::String as std::iter::Extend<char>>::extend::<.*>$')
+def _string_extend_chars(ctx, p, it):
+    cur = ctx.deref(p)
+    if not isinstance(cur, StrV):
+        return X.NOT_HANDLED
+    out = cur.s
+    for g, c in _ents(ctx, _as_iter(ctx, it)):
+        if g is not True or not isinstance(c, CI):
+            raise Unsupported('String::extend with symbolic characters')
+        out += chr(c.v)
+    ctx.write(p, StrV(out))
+    return UNIT
+
+
+@model(r'^std::string::String::with_capacity$')
+def _string_with_capacity(ctx, n):
+    return StrV('')
+
+
+@model(r'^std::string::String::push_str$')
+def _string_push_str(ctx, p, s2):
+    cur = ctx.deref(p)
+    add = as_str(ctx, s2)
+    if hasattr(cur, 'push_str_model'):
+        ctx.write(p, cur.push_str_model(ctx, add))
+        return UNIT
+    if isinstance(cur, StrV) and isinstance(add, StrV):
+        ctx.write(p, StrV(cur.s + add.s))
+        return UNIT
+    return X.NOT_HANDLED
+
+
+@model(r'^std::vec::Vec::<.*>::splice::<std::ops::Range(From|To|Inclusive)?<usize>, .*>$')
+def _vec_splice(ctx, p, r, it):
+    """v.splice(a..b, iter): the range is replaced by the iterator's items (applied at once: the returned Splice borrows the
+    vector until it is dropped, nothing can observe the intermediate state); the removed items are not yielded by the model"""
+    s = ctx.deref(p)
+    kind = re.search(r'splice::<std::ops::Range(From|To|Inclusive)?<usize>', ctx.callee).group(1)
+    if isinstance(s, Seq) and not s.dense() and kind is None and isinstance(r[0], CI) and isinstance(r[1], CI) and r[0].v == 0 and r[1].v == 0:
+        # insertion at the front: positions of the existing (possibly absent) entries do not matter
+        ctx.write(p, Seq(tuple(_ents(ctx, _as_iter(ctx, it))) + s.ents))
+        return Opaque('Splice')
+    if not isinstance(s, Seq) or not s.dense():
+        raise Unsupported('splice on a sparse sequence')
+    n = len(s.ents)
+    if kind is None:
+        a, b = r[0], r[1]
+    elif kind == 'From':
+        a, b = r[0], CI(n, 64)
+    elif kind == 'To':
+        a, b = CI(0, 64), r[0]
+    else:
+        raise Unsupported('splice with an inclusive range')
+    if not (isinstance(a, CI) and isinstance(b, CI)):
+        raise Unsupported('splice with a symbolic range')
+    if a.v > b.v or b.v > n:
+        ctx.panic_if(True, 'splice range out of bounds')
+        return X.DIVERGE
+    new = tuple(_ents(ctx, _as_iter(ctx, it)))
+    ctx.write(p, Seq(s.ents[:a.v] + new + s.ents[b.v:]))
+    return Opaque('Splice')
